@@ -6,7 +6,7 @@ CONSTANTS
   MaxUrl = 3
   ReuseOnLookup = FALSE
   FabricatedNorm = FALSE
-  EmptyParam = TRUE
+  EmptyParam = FALSE
   WildHostCheck = TRUE
   KF_Shadow = TRUE
   Source = "picks"
